@@ -93,3 +93,9 @@ PROPS["C13"] = dict(pkg="c13", shards=16, level="exploration", race=True,
     level_text="Exploration: generated schemas with lazily initialised features, fresh or rebuilt per trial, hammered by barrier-released goroutines with mixed operations in race-detector-instrumented worker processes; package-level first use is raced in a new process per trial; every concurrent result is compared with the same call made alone on another fresh instance.",
     level_note="The race detector only reports races that the scheduler actually exercises in the trial; schedules are whatever the Go scheduler produces for goroutines released together (no schedule control here). Replays repeat the trial 200 times.",
     cap_s={"quick": 900, "thorough": 3400})
+
+PROPS["C07"] = dict(pkg="c07", shards=16, level="fault_enumeration",
+    technique="grammar-based generation of client scripts (rapid) + enumeration of every truncation offset, run against the real RunATPServer in supervised workers; oracle = process survival, return, and an independent parse of the output stream against a reference reading of the script",
+    level_text="Fault enumeration: for each generated client script (valid and invalid frames in any order, step behaviours incl. gated ones released before or after the input ends) the whole script, every truncation offset of it (quick: every third offset at a generated phase; thorough: all) and failing-output variants are fed to the real server in a supervised worker; survival, return and the one-terminal-message-per-read-work-start invariant are checked.",
+    level_note="The reference reading of a script follows the statement: the server reads frames until the first frame it cannot decode as a runtime message, client-done or the end of input; while the output stays open every work-start frame read before that owes exactly one terminal message for its run ID ('' when the frame carries no usable run/step ID). Message order is not judged. 'Returns' is judged after every gate has been opened, with an 8+4 s bound.",
+    cap_s={"quick": 900, "thorough": 3400})
